@@ -308,8 +308,28 @@ class World:
         return out
 
     def folds(self, frame):
-        cv = self.make_cv()
-        return [(np.asarray(tr), np.asarray(te)) for tr, te in cv.split(frame, frame["target"])]
+        """The folds as the CV scheme *documents* them, computed without the repo's splitter
+        classes: the pre-split fold is 'rows labelled train' / 'rows labelled test' (then the
+        inner scikit-learn k-fold over positions); a single split is scikit-learn's
+        train_test_split of the positions; k-fold is scikit-learn's own."""
+        from sklearn.model_selection import KFold, train_test_split
+        c = self.scen["cv"]
+        n = len(frame)
+        idx = np.arange(n)
+        if c["type"] == "kfold":
+            cv = KFold(n_splits=c["k"], shuffle=c["shuffle"], random_state=c["rs"])
+            return [(np.asarray(tr), np.asarray(te)) for tr, te in cv.split(frame, frame["target"])]
+        if c["type"] == "single":
+            tr, te = train_test_split(idx, test_size=c["test_size"], train_size=None,
+                                      random_state=c["rs"], shuffle=c["shuffle"], stratify=None)
+            return [(np.asarray(tr), np.asarray(te))]
+        labels = np.asarray(frame.index)
+        out = [(idx[labels == "train"], idx[labels == "test"])]
+        if c["inner"]:
+            inner = KFold(n_splits=c["inner"]["k"], shuffle=c["inner"]["shuffle"],
+                          random_state=c["inner"]["rs"])
+            out += [(np.asarray(tr), np.asarray(te)) for tr, te in inner.split(idx, y=frame["target"])]
+        return out
 
 
 # ------------------------------------------------------------------ model
